@@ -162,6 +162,8 @@ func genStream(rng *prng.R, o streamOpts) []srcCmd {
 			add("mset", key(), val(), key(), val())
 		case k < 19 && inTx == 0:
 			add("ping")
+		case k < 20 && !o.Modelled && rng.Chance(1, 3):
+			add(rng.PickS("flushdb", "flushall")) // a write without any argument
 		case k < 20 && !o.Modelled:
 			add(rng.PickS("xadd", "zunionstore", "bitop", "setrange", "linsert"), key(), val(), key())
 		case k < 21 && o.Lua && inTx == 0:
